@@ -114,3 +114,45 @@ func VerifC13_TwoFilters() {
 	vcheck("unlocked-after-join", !W.w.IsLocked())
 	vreach("end")
 }
+
+// two DIFFERENT registered filters (one with a fixed relation target), one per thread: the
+// shared filter cache is only read; each thread gets exactly its own entities
+func VerifC13_TwoCachedFilters() {
+	W := vShapeRel(1, 60, true, 0)
+	f1 := NewFilter1[vPos](W.w).Register()
+	f2 := NewFilter2[vChild, vPos](W.w).Relations(RelIdx(0, W.e[0].h)).Register()
+	n1, n2, c1, c2 := 0, 0, 0, 0
+	vthreads("race-free",
+		func() {
+			q := f1.Query()
+			for q.Next() {
+				_ = q.Get().X
+				n1++
+			}
+			qc := f1.Query()
+			c1 = qc.Count()
+			qc.Close()
+		},
+		func() {
+			q := f2.Query()
+			for q.Next() {
+				_ = q.GetRelation(0)
+				n2++
+			}
+			qc := f2.Query()
+			c2 = qc.Count()
+			qc.Close()
+		})
+	e1, e2 := 0, 0
+	for j := 0; j < W.n; j++ {
+		if W.e[j].alive && W.e[j].has[cA] {
+			e1++
+		}
+		if W.e[j].alive && W.e[j].has[cA] && W.e[j].has[cR1] && W.e[j].tgt[0] == W.e[0].h {
+			e2++
+		}
+	}
+	vcheck("exact", n1 == e1 && n2 == e2 && c1 == e1 && c2 == e2)
+	vcheck("unlocked-after-join", !W.w.IsLocked())
+	vreach("end")
+}
